@@ -28,13 +28,14 @@ def model_cfgs(prop, thorough):
     """(name, constants) of the layer-B model runs. C11 explores read-only / size flips and lookups,
     C12 remote flips and, separately, two ec volumes changing at once."""
     t = 1 if thorough else 0
+    vols = MVOLS if thorough else MVOLS[:1]
     if prop == "C11":
-        res = [("vol", dict(MBASE, Attrs={"ro", "big"}, Bits={0}, MaxOps=3 + t, MaxSrv=3))]
+        res = [("vol", dict(MBASE, VolCfg=vols, Attrs={"ro", "big"}, Bits={0}, MaxOps=3 + t, MaxSrv=3))]
         if thorough:
-            res.append(("asmin", dict(MBASE, Attrs={"ro"}, EcCfg=[], AsMin=True, MaxOps=5, MaxSrv=3,
-                                      VolCfg=[dict(MVOLS[1], id=1), dict(MVOLS[0], id=2)])))
+            res.append(("asmin", dict(MBASE, Attrs={"ro"}, EcCfg=[], AsMin=True, MaxOps=6, MaxSrv=4,
+                                      VolCfg=[dict(MVOLS[1], id=1)])))
         return res
-    return [("vol", dict(MBASE, Attrs={"rem"}, EcCfg=[], MaxOps=3 + t, MaxSrv=3 + t)),
+    return [("vol", dict(MBASE, VolCfg=vols, Attrs={"rem"}, EcCfg=[], MaxOps=3 + t, MaxSrv=3 + t)),
             ("ec", dict(MBASE, Nodes={"n1"}, VolCfg=[], EcCfg=MECS, MaxOps=2 + t, MaxSrv=4 + t))]
 
 
@@ -46,7 +47,7 @@ def sim_cfg(prop):
 def reset_of(c):
     return {"ev": "reset", "limit": LIMIT, "min": c["AsMin"],
             "nodes": [{"id": n, "dc": "d1", "rack": "r1"} for n in sorted(c["Nodes"])],
-            "vols": c["VolCfg"], "vecs": c["EcCfg"], "types": [""]}
+            "vols": c["VolCfg"], "vecs": c["EcCfg"], "types": [""], "wishes": [""]}
 
 
 class Servers:
@@ -54,16 +55,22 @@ class Servers:
     volume server can produce (stream = full volume heartbeat, full ec heartbeat, then queued deltas and
     periodic snapshots in any order; queued deltas survive a reconnect). No expectations are computed."""
 
-    def __init__(self, rng, nodes, vols, ecs, asmin):
+    def __init__(self, rng, nodes, vols, ecs, asmin, races=False, tiering=False, growing=False):
         self.rng = rng
         self.nodes = nodes
         self.vols = vols
         self.ecs = ecs
-        self.reset = {"ev": "reset", "limit": LIMIT, "min": asmin, "nodes": nodes, "vols": vols, "vecs": ecs, "types": DTS}
+        self.reset = {"ev": "reset", "limit": LIMIT, "min": asmin, "nodes": nodes, "vols": vols, "vecs": ecs, "types": DTS,
+                      "wishes": ["", rng.choice(["d1", "d1", "d2"])]}
         self.srv = {n["id"]: {} for n in nodes}
         self.srvec = {n["id"]: {} for n in nodes}
         self.pend = {n["id"]: [] for n in nodes}
         self.sess = {n["id"]: "down" for n in nodes}
+        self.zombie = set()      # servers with an abandoned stream the master has not dropped yet
+        self.raced = set()       # one race per server and execution
+        self.races = races       # whether servers may re-dial before the master noticed the broken stream
+        self.tiering = tiering   # volumes are often moved to / from a remote tier and deleted soon after
+        self.growing = growing   # volumes often reach the size limit and the master's size check runs often
         self.maxc = {n["id"]: {"": rng.choice([2, 3, 5]), "ssd": rng.choice([0, 0, 2, 4])} for n in nodes}
 
     def full_msg(self, n):
@@ -81,6 +88,18 @@ class Servers:
         """one change on volume server n (not an event of the master)"""
         r = self.rng.random()
         s = self.srv[n]
+        if self.tiering and s and r < 0.35:
+            v = self.rng.choice(sorted(s))
+            if s[v]["rem"] and self.rng.random() < 0.5:
+                del s[v]
+                self.pend[n].append({"ev": "inc", "n": n, "newv": [], "delv": [v]})
+            else:
+                s[v]["rem"] = not s[v]["rem"]
+            return
+        if self.growing and s and r < 0.3:
+            v = self.rng.choice(sorted(s))
+            s[v]["big"] = not s[v]["big"] if self.rng.random() < 0.3 else True
+            return
         if r < 0.3:
             cand = [v["id"] for v in self.vols if v["id"] not in s]
             if cand:
@@ -124,13 +143,25 @@ class Servers:
             self.sess[n] = "needec"
             return self.full_msg(n)
         if st == "needec":
+            if n in self.zombie and rng.random() < 0.3:
+                self.zombie.discard(n)
+                return {"ev": "zclose", "n": n}
             self.sess[n] = "up"
             return self.ecfull_msg(n)
         r = rng.random()
-        if r < 0.07:
+        if n in self.zombie and r < 0.5:
+            self.zombie.discard(n)
+            return {"ev": "zclose", "n": n}
+        if self.races and n not in self.raced and r < 0.08:
+            self.raced.add(n)
+            # the connection broke and the server dialled again before the master's handler of the old stream returned
+            self.zombie.add(n)
+            self.sess[n] = "needec"
+            return dict(self.full_msg(n), ev="reopen")
+        if r < 0.07 and n not in self.zombie:
             self.sess[n] = "down"
             return {"ev": "close", "n": n}
-        if r < 0.12:
+        if r < (0.25 if self.growing else 0.12):
             return {"ev": "collect"}
         if r < 0.45 and self.pend[n]:
             # the select loop takes any ready channel: mostly oldest first, sometimes reordered
@@ -143,12 +174,13 @@ class Servers:
         return None
 
 
-def random_histories(rng, count, length):
+def random_histories(rng, count, length, race_share=0.2):
     out = []
     for _ in range(count):
         k = rng.choice([2, 3, 3, 4])
         nodes = NODES4[:k]
-        s = Servers(rng, nodes, VOLS4, ECS2, asmin=rng.random() < 0.3)
+        s = Servers(rng, nodes, VOLS4, ECS2, asmin=rng.random() < 0.3, races=rng.random() < race_share,
+                    tiering=rng.random() < 0.25, growing=rng.random() < 0.25)
         ops = []
         while len(ops) < length:
             if rng.random() < 0.55:
@@ -174,21 +206,23 @@ def run_prop(ctx, prop):
     rng = random.Random(ctx.seed * 7919 + (11 if prop == "C11" else 12))
     invs = (["InvC11", "InvWritable", "InvLocations"] if prop == "C11"
             else ["InvC12", "InvCounters", "InvTotals"])
-    base = "SPECIFICATION Spec\nCHECK_DEADLOCK FALSE\n" + "".join("INVARIANT %s\n" % i for i in invs)
+    base = "SPECIFICATION Spec\nCHECK_DEADLOCK FALSE\nVIEW MCView\n" + "".join("INVARIANT %s\n" % i for i in invs)
     execs = []
-    for name, mc in model_cfgs(prop, ctx.thorough):
+    skip_mc = bool(os.environ.get("VERIF_SKIP_MC"))     # development aid for mutant runs: only drive and judge
+    for name, mc in ([] if skip_mc else model_cfgs(prop, ctx.thorough)):
         # 1. layer B model-checked: the layer-A predicates hold of every snapshot the model can report
         ctx.model_check(ctx.instance("MC_%s_%s" % (prop, name), "MasterTopoImpl", base, mc), workers=4, timeout=800,
                         label="layer B (%s), repaired code: %s" % (name, ",".join(invs)))
-        if ctx.thorough and not ctx.replay:
+        if not ctx.replay:
             # 2. G2: one shortest history per distinct model state (hist and budget left out of the view)
             g2 = ctx.instance("G2_%s_%s" % (prop, name), "MasterTopoImpl",
                               "SPECIFICATION Spec\nINVARIANT EmitW\nVIEW View\nCHECK_DEADLOCK FALSE", mc)
             hists = ctx.generate(g2, workers=4, timeout=800)
-            if len(hists) > 4000:
-                hists = rng.sample(hists, 4000)
+            cap = 1500 if ctx.thorough else 150
+            if len(hists) > cap:
+                hists = rng.sample(hists, cap)
             execs += [(reset_of(mc), h) for h in hists]
-    if ctx.thorough:
+    if ctx.thorough and not skip_mc:
         # the model is sensitive to the defects that were repaired in /repo (S14, S15) and to the open finding
         if prop == "C12":
             for name, mc in model_cfgs(prop, False):
@@ -199,18 +233,18 @@ def run_prop(ctx, prop):
         else:
             name, mc = model_cfgs(prop, False)[0]
             ctx.model_check(ctx.instance("MCstrict_%s" % prop, "MasterTopoImpl",
-                                         "SPECIFICATION Spec\nCHECK_DEADLOCK FALSE\nINVARIANT InvC11Strict\n", mc),
+                                         "SPECIFICATION Spec\nCHECK_DEADLOCK FALSE\nVIEW MCView\nINVARIANT InvC11Strict\n", mc),
                             workers=4, timeout=800, expect_violation="InvC11Strict", coverage=False,
                             label="layer B without the known finding admitted: ec lookup must break")
     if not ctx.replay:
         # 3. G3: random behaviours of a larger instance of the layer-B model
         sc = sim_cfg(prop)
         g3 = ctx.instance("G3_%s" % prop, "MasterTopoImpl", "SPECIFICATION Spec\nINVARIANT Emit\nCHECK_DEADLOCK FALSE", sc)
-        hists = ctx.generate(g3, simulate=4000 if ctx.thorough else 250, depth=sc["MaxOps"] + sc["MaxSrv"] + 1)
+        hists = ctx.generate(g3, simulate=1200 if ctx.thorough else 150, depth=sc["MaxOps"] + sc["MaxSrv"] + 1)
         execs += [(reset_of(sc), h) for h in hists]
         ctx.notes["model_histories"] = len(execs)
         # 4. G4: long random histories over 2-4 servers in 2 data centers / 3 racks, 4 volumes on 2 disk types
-        execs += random_histories(rng, 2500 if ctx.thorough else 250, 20 if ctx.thorough else 16)
+        execs += random_histories(rng, 1000 if ctx.thorough else 150, 20 if ctx.thorough else 14)
         script = os.path.join(ctx.out, "script.ndjson")
         write_script(script, execs)
     else:
@@ -244,16 +278,18 @@ def run_prop(ctx, prop):
         return sum(1 for x in lines if '"ev":"inc"' in x or '"ev":"ecinc"' in x or '"ev":"close"' in x) >= 1 and len(lines) >= 7
 
     ctx.judge("MasterViewTrace", trace, "trace_base.cfg", {"Prop": prop}, nontrivial=nontrivial, mutate=mutate,
-              chunk_events=4000)
+              chunk_events=2500 if not ctx.thorough else 6000, jobs=4 if not ctx.thorough else 8)
     ctx.rule = ("executions = heartbeat histories fed to a real topology.Topology through the calls of SendHeartbeat: "
-                "G2 one shortest history per distinct (master state, last event) of the layer-B model (2 servers, 2 volumes, "
-                "1 ec volume, stale / duplicate deltas, reconnects), sampled to a cap, + seeded random server walks "
-                "(2-4 servers, 2 data centers, 3 racks, 4 volumes with replication 000/001/010/100 on 2 disk types, 2 ec volumes, "
-                "max-count changes, 20 master events each); after every event the driver records ToTopologyInfo, the usage "
-                "counters and AvailableSpaceFor of every level, Lookup of every id and the writable lists; non-trivial = contains "
-                "an incremental message or a disconnect and >= 3 events; distinct by hash of the recorded execution")
+                "G2 one shortest history per distinct state of the model-checked layer-B instances (sampled to a cap), "
+                "G3 random behaviours of a larger layer-B instance (2 servers, 2 volumes, 2 ec volumes, all flags; stale / "
+                "reordered deltas, reconnects) + seeded random server walks (2-4 servers, 2 data centers, 3 racks, 4 volumes "
+                "with replication 000/001/010/100 on 2 disk types, 2 ec volumes, max-count changes, a quarter with tiering "
+                "(remote flag flips, deletes), a fifth with a server re-dialling before the master dropped its old stream); "
+                "after every event the driver records ToTopologyInfo, the usage counters and AvailableSpaceFor of every "
+                "level, Lookup of every id, the writable lists and PickForWrite per volume class; non-trivial = contains an "
+                "incremental message or a disconnect and >= 3 events; distinct by hash of the recorded execution")
     ctx.exhaustive = False
-    ctx.assumptions += ["heartbeats are processed one at a time (the master serialises nothing itself; concurrent streams are not explored)",
+    ctx.assumptions += ["heartbeats are processed one at a time (interleavings of concurrently running handlers are not explored); two streams of one server overlap only in the re-dial scenario",
                         "volume ids of normal and ec volumes are disjoint; static volume attributes (collection, replication, ttl, disk type) never change",
                         "free slots = max + remote - volumes - (ecShards/10 + 1 if ecShards > 0), the definition in DiskUsageCounts.FreeSpace",
                         "the size condition of C11 is required right after the master's size check (collect), which is when the code enforces it"]
